@@ -340,6 +340,9 @@ pub fn run_pair(w: &mut Out, p: &Pair, rtm: &tokio::runtime::Runtime, cli: Optio
 pub struct CliCtx {
     pub bin: PathBuf,
     pub dir: PathBuf,
+    /// number of runs that had to be killed after the timeout; after 2 of them further CLI runs are
+    /// skipped (reported as exit -998) so that a hanging build does not stall the whole check
+    pub hangs: std::cell::Cell<u32>,
 }
 
 impl CliCtx {
@@ -350,13 +353,37 @@ impl CliCtx {
         }
         let dir = PathBuf::from(format!("/var/tmp/copia-corr-{}", std::process::id()));
         std::fs::create_dir_all(&dir).ok()?;
-        Some(CliCtx { bin, dir })
+        Some(CliCtx { bin, dir, hangs: std::cell::Cell::new(0) })
     }
+    /// exit code (None = killed by a signal), stderr. A run that exceeds 30 s is killed and reported
+    /// with the pseudo exit code -999 ("hang").
     pub fn run(&self, args: &[&str]) -> (Option<i32>, String) {
-        let o = std::process::Command::new(&self.bin).args(args).env("RUST_LOG", "off").output();
-        match o {
-            Ok(o) => (o.status.code(), String::from_utf8_lossy(&o.stderr).into_owned()),
-            Err(e) => (None, e.to_string()),
+        use std::io::Read;
+        if self.hangs.get() >= 2 {
+            return (Some(-998), "SKIPPED: earlier runs of this binary hung".into());
+        }
+        let child = std::process::Command::new(&self.bin).args(args).env("RUST_LOG", "off").env("RUST_BACKTRACE", "0")
+            .stdout(std::process::Stdio::null()).stderr(std::process::Stdio::piped()).spawn();
+        let mut child = match child { Ok(c) => c, Err(e) => return (None, e.to_string()) };
+        let t0 = std::time::Instant::now();
+        loop {
+            match child.try_wait() {
+                Ok(Some(st)) => {
+                    let mut e = String::new();
+                    if let Some(mut s) = child.stderr.take() { let _ = s.read_to_string(&mut e); }
+                    return (st.code(), e);
+                }
+                Ok(None) => {
+                    if t0.elapsed().as_secs() > 20 {
+                        let _ = child.kill();
+                        let _ = child.wait();
+                        self.hangs.set(self.hangs.get() + 1);
+                        return (Some(-999), "TIMEOUT: still running after 20 s (killed)".into());
+                    }
+                    std::thread::sleep(std::time::Duration::from_millis(2));
+                }
+                Err(e) => return (None, e.to_string()),
+            }
         }
     }
     fn chain(&self, w: &mut Out, l: u64, p: &Pair, d_sync: &Delta, sig: &Signature) {
@@ -368,6 +395,9 @@ impl CliCtx {
         let (c2, _) = self.run(&["delta", &f("src"), &f("sig"), "-o", &f("delta")]);
         let (c3, e3) = self.run(&["patch", &f("basis"), &f("delta"), "-o", &f("out")]);
         w.count("cli-chain");
+        if [c1, c2, c3].contains(&Some(-998)) {
+            return;
+        }
         if c1 != Some(0) || c2 != Some(0) || c3 != Some(0) {
             w.fail(l, "cli-chain-exit", &format!("signature/delta/patch exit {c1:?}/{c2:?}/{c3:?} {e3} [{}]", p.label));
             return;
@@ -390,6 +420,9 @@ impl CliCtx {
                 _ => {}
             }
             let (c, e) = self.run(&["sync", &f("src"), &dst, "-b", &bs]);
+            if c == Some(-998) {
+                return;
+            }
             if c != Some(0) || std::fs::read(&dst).ok().as_deref() != Some(&p.src[..]) {
                 w.fail(l, "cli-sync", &format!("copia sync (dest mode {mode}) exit {c:?} {e} or wrong bytes [{}]", p.label));
             }
@@ -476,6 +509,7 @@ query = `patch` with full ops; answer = verdict + length and FNV hash of the byt
     let cli = CliCtx::new();
     let mut rng = Rng::new(seed ^ 0xC05);
     let n = if thorough { 30_000 } else { 2_500 };
+    let mut async_hangs = 0u32;   // after two hangs the async engine is no longer called (each costs a 20 s wait and a spinning thread)
     for i in 0..n {
         let bs = *rng.pick(&[512usize, 1024, 2048]);
         let nb = rng.range(1, 6) as usize;
@@ -547,6 +581,7 @@ query = `patch` with full ops; answer = verdict + length and FNV hash of the byt
         let cs_tok = known.iter().find(|k| StrongHash::compute(k) == d.checksum).map_or("!".to_string(), |k| hex(k));
         for k in &kinds { w.count(&format!("corruption/{k}")); }
         let verify = !rng.coin(1, 10);
+        w.pre(&delta_query(verify, &basis2, &d, &cs_tok));
         let got = guarded(|| apply_patch_sync(&basis2, &d, verify));
         let imp = match &got {
             Ok((r, out)) => format!("{} {} {}", res_kind(r), out.len(), fnv(out)),
@@ -563,12 +598,18 @@ query = `patch` with full ops; answer = verdict + length and FNV hash of the byt
             }
         }
         // async engine must agree on verdict kind and bytes written
-        if verify {
-            let ga = guarded(|| {
+        if verify && async_hangs < 2 {
+            let (b2c, dc) = (basis2.clone(), d.clone());
+            let ga = crate::util::guarded_timeout(20, move || {
                 let mut out = Vec::new();
-                let r = rtm.block_on(AsyncCopiaSync::new().patch(Cursor::new(&basis2), &d, &mut out));
+                let r = rt().block_on(AsyncCopiaSync::new().patch(Cursor::new(&b2c), &dc, &mut out));
                 (r, out)
             });
+            if let Err(true) = ga {
+                async_hangs += 1;
+                w.fail(l, "patch-hang", &format!("async patch did not return within 20 s (case {i}, corruptions {kinds:?})"));
+            }
+            let ga = ga.map_err(|_| ());
             match (&ga, &got) {
                 (Ok((ra, oa)), Ok((rs, os))) => {
                     if ra.is_ok() && StrongHash::compute(oa) != d.checksum {
@@ -592,6 +633,7 @@ query = `patch` with full ops; answer = verdict + length and FNV hash of the byt
                 let (code, err) = c.run(&["patch", &f("b"), &f("d"), "-o", &f("o")]);
                 w.count("cli-patch");
                 match code {
+                    Some(-999) => w.fail(l, "cli-patch-hang", &format!("copia patch did not terminate within 30 s (case {i}, corruptions {kinds:?})")),
                     None => w.fail(l, "cli-patch-signal", &format!("copia patch died by signal: {err} (case {i}, corruptions {kinds:?})")),
                     Some(0) => {
                         let o = std::fs::read(f("o")).unwrap_or_default();
